@@ -279,12 +279,11 @@ def r4(ctx) -> None:
         return None
 
     blocks = {}
-    for n in lib.nodes(wr, ast.If):
-        t = norm(n.test)
-        if "DataFileType.wavelength_explicit" in t:
-            blocks["wavelength"] = n.body
-        if "DataFileType.time_explicit" in t:
-            blocks["time"] = n.body
+    for fmt, key in (("wavelength", "DataFileType.wavelength_explicit"), ("time", "DataFileType.time_explicit")):
+        # statements executed only when file_format == <key> (nested if / elif / guard form)
+        body = lib.stmts_when(wr, repo, lambda e, key=key: isinstance(e, ast.Compare) and isinstance(e.ops[0], ast.Eq) and key in norm(e))
+        if body:
+            blocks[fmt] = body
     for fmt, body in sorted(blocks.items()):
         rd = [s for s in body if isinstance(s, ast.Assign) and norm(s.targets[0]) == "raw_data"]
         hd = [s for s in body if isinstance(s, ast.Assign) and norm(s.targets[0]) in ("wav", "tim")]
@@ -316,13 +315,9 @@ def r4(ctx) -> None:
     ok_w = "self._spectral_indices = explicit_axis" in txt and "self._times = secondary_axis" in txt
     ok_s = "secondary_axis = rest_of_data[:, 0]" in txt and "observations = rest_of_data[:, 1:]" in txt and "explicit_axis = explicit_axis[0, :]" in txt
     blocks = {}
-    for n in lib.nodes(rdf, ast.If):
-        t = norm(n.test)
-        if "DataFileType.time_explicit" in t:
-            blocks["time"] = norm(ast.Module(body=n.body, type_ignores=[]))
-            for e in n.orelse:
-                if isinstance(e, ast.If) and "DataFileType.wavelength_explicit" in norm(e.test):
-                    blocks["wavelength"] = norm(ast.Module(body=e.body, type_ignores=[]))
+    for fmt, key in (("wavelength", "DataFileType.wavelength_explicit"), ("time", "DataFileType.time_explicit")):
+        body = lib.stmts_when(rdf, repo, lambda e, key=key: isinstance(e, ast.Compare) and isinstance(e.ops[0], ast.Eq) and key in norm(e))
+        blocks[fmt] = norm(ast.Module(body=body, type_ignores=[])) if body else ""
     ok_b = "self._times = explicit_axis" in blocks.get("time", "") and "self._spectral_indices = secondary_axis" in blocks.get("time", "") and \
         "self._spectral_indices = explicit_axis" in blocks.get("wavelength", "") and "self._times = secondary_axis" in blocks.get("wavelength", "")
     ctx.ob("C17-R4", "read/axes-per-format", ok_t and ok_w and ok_s and ok_b, rdf, rdf.node,
